@@ -35,6 +35,11 @@ CLAIMED = {
   text='Decides, for 14 (quick) / 17 (thorough) pipeline shapes x failure modes {exit 1, signal} x every termination order x every failing spawn position: non-zero exit iff a stage failed; no link after a failure; the failing pipeline output is unlinked; all mkstemp temporaries are unlinked before any exit; SIGTERM to every still-running stage on the first failure; every child reaped; wait bookkeeping consistent (no wait without children, which is the static face of "never hangs"); no command-line input is ever unlinked. Real timing, signal delivery and the tools themselves are abstracted (a killed child is reaped with SIGTERM status); pipe/fcntl/mkstemp failures are not injected.',
   note='Trusts clang 14 front end, lib/eai.py, the process-API models in lib/driver.py. Shapes with 4-5 stages are in the thorough tier (exploration grows as n! x 2^n).',
   design='5/C18'),
+ 'C14': dict(
+  technique='interval-set abstract interpretation of utf.c (exact accepted / encoded code-point sets, lib/ivl.py), finite-domain interpretation of the lexer escape scanner over all 257 characters, E-AI tables of decodechar/stringconcat/primaryexpr over literal classes; compared with Unicode 15 ch.3 and C11 6.4.4.4/6.4.5',
+  text='Decides exactly: the UTF-8 decoder acceptance set per length (all 2^32 byte quadruples, by interval analysis); the encoders range dispatch, assert-freedom on every scalar value and their code units (thorough: every code point; quick: boundaries, bit probes, stride); the set of escape introducers the lexer accepts; digit predicates. Decides on a finite table (stated non-exhaustive): decoded values of escapes, element type / code units / length of concatenated literals for all prefix pairs, character-constant types and values per target. Cases C11 leaves implementation-defined are not judged.',
+  note='Trusts clang 14 front end, lib/eai.py + lib/ivl.py, the token-cursor and array/buffer models in props/c14.py, Python\'s UTF-8/16 codecs as the Unicode oracle. One known finding (out-of-range string escapes truncated; upstream test pins it).',
+  design='5/C14'),
  'C01': dict(
   technique='abstract interpretation (partial evaluation of the lowering functions over the static type/operator descriptor domain) + AST table extraction vs C11/QBE oracle tables',
   text='Decides structural clauses only: the instruction-selection, conversion, load/store, truthiness and bit-field shift tables that every compiled program is lowered through are extracted from the current source by an abstract interpreter and compared exhaustively (over the finite descriptor domain) with oracle tables written from C11 and the QBE manual; sibling switches are checked for exhaustiveness. Semantic equivalence of emitted IL for arbitrary programs is NOT decided.',
